@@ -190,9 +190,16 @@ def run(chk: lib.Check):
                     if not any(extra is c for c in chosen):
                         chosen.append(extra)
             chosen.sort(key=lambda e: len(list(e.iterancestors())))
+            # every third layout: the fragment files share ONE base name and differ in their folder only
+            same_base = li % 3 == 2 and len(chosen) >= 2
+            dirs_ = list(FRAG_DIRS)
+            rng.shuffle(dirs_)
             for i, e in enumerate(chosen):
-                d = rng.choice(FRAG_DIRS)
-                picks.append((e.get("id"), (d + "/" if d else "") + f"F{i} {e.get(graph.XSI_TYPE).split(':')[-1]}.capellafragment"))
+                d = dirs_[i % len(dirs_)] if same_base else rng.choice(FRAG_DIRS)
+                base = "Structure" if same_base else f"F{i} {e.get(graph.XSI_TYPE).split(':')[-1]}"
+                picks.append((e.get("id"), (d + "/" if d else "") + f"{base}.capellafragment"))
+            if same_base:
+                stats["layouts-with-one-base-name-in-several-folders"] += 1
             with lib.scratch("c06-") as tmp:
                 shutil.copytree(src, tmp / "m", ignore=shutil.ignore_patterns("*.license"))
                 aird_style = "chain" if li % 2 else "direct"
@@ -328,6 +335,17 @@ def run(chk: lib.Check):
                                 in_moves.append((c_el.get("id"), h_el.get("id"), outs[li % len(outs)].get("id")))
                             if len(in_moves) >= 12:
                                 break
+                    # ... and a move of the element that HOLDS the placeholder of the outermost fragment (the fragment content moves along in
+                    # the glued tree): its parent goes to another object of the grandparent's class
+                    holder_move = None
+                    hold_el = chosen[0].getparent()
+                    if hold_el is not None and hold_el.get("id") and hold_el.getparent() is not None and hold_el.getparent().get("id"):
+                        gp_el = hold_el.getparent()
+                        hold_desc = {id(d) for d in hold_el.iter()}
+                        dests_ = [e for e in elems if e.get(graph.XSI_TYPE) == gp_el.get(graph.XSI_TYPE) and e.get("id") and e is not gp_el
+                                  and id(e) not in hold_desc and not any(id(a) in hold_desc for a in e.iterancestors())]
+                        if dests_:
+                            holder_move = (hold_el.get("id"), dests_[li % len(dests_)].get("id"))
                     mono2 = corpus.load(spec0)
 
                     def structural_edits(m):
@@ -356,6 +374,17 @@ def run(chk: lib.Check):
                                     res.append(f"moved:{cont[1]}")
                             except Exception as ex:  # noqa: BLE001
                                 res.append("move:" + type(ex).__name__)
+                        if holder_move:
+                            try:
+                                x_ = m.by_uuid(holder_move[0])
+                                cont = hr_.container_of(x_)
+                                if cont is None:
+                                    res.append("move-holder:no-container")
+                                else:
+                                    getattr(m.by_uuid(holder_move[1]), cont[1]).append(x_)
+                                    res.append(f"moved-holder:{cont[1]}")
+                            except Exception as ex:  # noqa: BLE001
+                                res.append("move-holder:" + type(ex).__name__)
                         for k_, in_move in enumerate(in_moves):
                             try:
                                 cont = hr_.container_of(m.by_uuid(in_move[0]))
